@@ -113,7 +113,10 @@ def handle (inp out : String) : String :=
         | .ok t => TlvSpec.encode (Tlv.deepen 12 t) == raw
         | .error _ => false
       let spec := if (stOf out) == "0" && canonical && !(out.endsWith " ser=0:1") then some "parsed-signature-does-not-reserialize-to-its-input" else none
-      verdict s!"sig:{stOf out}" ms out spec (withRef (cfgOf good) f)
+      -- an accepted input that is NOT canonically encoded may come back in another encoding (nothing in the property says otherwise):
+      -- the re-serialization flag is then not part of the comparison
+      let outN := if !canonical && out.endsWith " ser=0:0" then (out.dropEnd 8).toString ++ " ser=0:1" else out
+      verdict s!"sig:{stOf out}" ms outN spec (withRef (cfgOf good) f)
     | none => "skip bad-hex"
   | "pub" :: h :: good =>
     match ofHex h with
